@@ -46,6 +46,10 @@ def check(run):
                    'discharged or reported' % (nf, n), trivial=True)
         unit_table(run, F)
         fmt_table(run, F)
+        # printing goes through as_cr, parsing through From<chrono>: the pair denotes one instant
+        import timerules as T
+        run.rule('TBL.cr', T.RULES['TBL.cr'])
+        T.check_cr_table(run, F)
     return run.finish(
         'other',
         'Totality: from the six parser entry points (parse and FromStr for TimeDelta, DateTime, '
